@@ -107,9 +107,22 @@ def count_errors(y: np.ndarray, home_streak_min: int,
     opposing team `B` would have necessarily incured the exactly same
     violations. These are then not counted.
 
-    As upper bound for the number of errors, we therefore have to add those of
-    constraints 2, 9, and 10 and get `(2*D - 1) * n + D*n - 1 + D*n`, which
-    gives us `(4*D - 1) * n - 1, where `D = (n - 1) * rounds`.
+    The estimates above assume plans in which at most one error per team and
+    day occurs in each group of constraints. Arbitrary game plans (all values
+    from `-n..n` are permitted in every cell) can exceed them: minimum streak
+    lengths or minimum separations above `1` cost several errors at once,
+    and an inconsistent plan in which, e.g., every team plays "at home"
+    against the same opponent on every day violates constraints 9 and 10 by
+    up to `D` per pairing. A bound that holds for every plan is therefore
+    computed in :meth:`Errors.upper_bound`: each of the `D * n` cells can
+    cause at most `1` error by constraints 1 or 2, at most
+    `max(1, max(home_streak_min, away_streak_min) - 1)` errors by the streak
+    constraints 3 to 6, and at most
+    `max(separation_min, D - 2 - separation_max, 0)` errors by constraints 7
+    and 8; a streak that is cut off by the end of the season adds at most
+    `max(home_streak_min, away_streak_min) - 1` per team; and constraints 9
+    and 10 together add at most `n*(n-1)/2 * rounds + 2 * D * n`, where
+    `D = (n - 1) * rounds`.
     The lower bound is obviously `0`.
 
     :param y: the game plan
@@ -353,17 +366,24 @@ class Errors(Objective):
 
     def upper_bound(self) -> int:
         """
-        Compute upper bound for errors: `(4*D - 1) * n - 1`.
+        Compute an upper bound for the number of errors of any game plan.
 
         Here `D` is the number of days, `n` is the number of teams, and
-        `D = (n - 1) * rounds`. See the documentation of :func:`count_errors`.
+        `D = (n - 1) * rounds`. See the documentation of :func:`count_errors`
+        for the derivation.
 
-        :return: `(4*D - 1) * n - 1`
+        :return: the upper bound
         """
-        n: Final[int] = self.instance.n_cities
-        rounds: Final[int] = self.instance.rounds
+        inst: Final[Instance] = self.instance
+        n: Final[int] = inst.n_cities
+        rounds: Final[int] = inst.rounds
         days: Final[int] = (n - 1) * rounds
-        return (4 * days - 1) * n - 1
+        streak_min: Final[int] = max(
+            inst.home_streak_min, inst.away_streak_min)
+        per_cell: Final[int] = 1 + max(1, streak_min - 1) + max(
+            inst.separation_min, days - 2 - inst.separation_max, 0)
+        return (n * days * per_cell) + (n * (streak_min - 1)) \
+            + (((n * (n - 1)) // 2) * rounds) + (2 * days * n)
 
     def is_always_integer(self) -> bool:
         """
